@@ -147,7 +147,7 @@ CLAIMED.update({
 })
 
 NOT_APPLICABLE = {
-    'C16': 'Parser/precedence/round-trip: PLY regex lexer + table-driven LALR driver over token sequences; no arithmetic or bit-level state for a solver to range over. CrossHair on lexyacc.Parser.parse with symbolic strings (len <= 3) answers "Unable to meet precondition" after 90 s. See DESIGN.md §5.',
+    'C16': 'Parser/precedence/round-trip: PLY regex lexer + table-driven LALR driver over token sequences; no arithmetic or bit-level state for a solver to range over. CrossHair on lexyacc.Parser.parse with symbolic strings (len <= 3) answers "Unable to meet precondition" after 90 s. C06 checks the meaning of a fixed list of unparenthesised shapes against the documented precedence table; the quantifier over token sequences stays outside. See DESIGN.md §5.',
 }
 
 PENDING = 'check not built yet in this round (planned, see DESIGN.md §3); not claimed until its command exists'
